@@ -106,14 +106,43 @@ type OnKill struct {
 	Poison bool     // 是否采用毒杀模式，true 时立即销毁，不处理剩余队列，false 时常规优雅下线。
 }
 
-func onKillReader(message any, reader *messages.Reader, codec messages.Codec) error {
+// writeActorRef 将 ActorRef 以「地址 + 路径」两个字符串写入；接口类型的引用本身无法被二进制读写器处理，nil 引用写为两个空串
+func writeActorRef(writer *messages.Writer, ref ActorRef) error {
+	var address, path string
+	if ref != nil {
+		address, path = ref.GetAddress(), ref.GetPath()
+	}
+	return writer.WriteFrom(address, path)
+}
+
+// readActorRef 读取由 writeActorRef 写入的引用并还原为 ActorRef
+func readActorRef(reader *messages.Reader) (ActorRef, error) {
+	var address, path string
+	if err := reader.ReadInto(&address, &path); err != nil {
+		return nil, err
+	}
+	built, err := messages.BuildRef(address, path)
+	if err != nil {
+		return nil, err
+	}
+	ref, _ := built.(ActorRef)
+	return ref, nil
+}
+
+func onKillReader(message any, reader *messages.Reader, codec messages.Codec) (err error) {
 	m := message.(*OnKill)
-	return reader.ReadInto(&m.Killer, &m.Reason, &m.Poison)
+	if m.Killer, err = readActorRef(reader); err != nil {
+		return err
+	}
+	return reader.ReadInto(&m.Reason, &m.Poison)
 }
 
 func onKillWriter(message any, writer *messages.Writer, codec messages.Codec) error {
 	m := message.(*OnKill)
-	return writer.WriteFrom(m.Killer, m.Reason, m.Poison)
+	if err := writeActorRef(writer, m.Killer); err != nil {
+		return err
+	}
+	return writer.WriteFrom(m.Reason, m.Poison)
 }
 
 // Pong 表示 Ping 消息的响应。
@@ -162,14 +191,15 @@ type OnKilled struct {
 	Ref ActorRef // 被终止的 ActorRef
 }
 
-func onKilledReader(message any, reader *messages.Reader, codec messages.Codec) error {
+func onKilledReader(message any, reader *messages.Reader, codec messages.Codec) (err error) {
 	m := message.(*OnKilled)
-	return reader.ReadInto(&m.Ref)
+	m.Ref, err = readActorRef(reader)
+	return err
 }
 
 func onKilledWriter(message any, writer *messages.Writer, codec messages.Codec) error {
 	m := message.(*OnKilled)
-	return writer.WriteFrom(m.Ref)
+	return writeActorRef(writer, m.Ref)
 }
 
 type StreamEvent any
